@@ -114,14 +114,15 @@ theorem jailed_not_in_consensus_set (s : State) (h2 : Inv2 s) (h t : Int) (hh : 
 example : (endBlock (step Ex.s0 (.burn Ex.B 20000000)) 4 2000).2 = [⟨Ex.A, [1, 1], 20⟩, ⟨Ex.B, [2, 2], 0⟩] := by decide
 
 /-- An unjail message is accepted only from the operator or the output address, for a jailed node holding
-at least the minimum stake, once the jail period has passed in block time — and, as coded, also in the
-node's wall-clock time `now` (`time.Now()` in `ValidateUnjailMessage`; see C12). -/
-theorem unjail_requires (s : State) (h t now : Int) (a signer : Addr) (hok : (handleUnjail s h t now a signer).2 = .ok) :
+at least the minimum stake, once the jail period has passed **in block time** (code after /repo 286039a; the
+earlier code additionally compared `JailedUntil` with `time.Now()`, the wall clock of the executing node — the
+defect of C12, see the note below `unjail_iff`). -/
+theorem unjail_requires (s : State) (h t : Int) (a signer : Addr) (hok : (handleUnjail s h t a signer).2 = .ok) :
     ∃ v si, aget s.vals a = some v ∧ aget s.signInfo v.addr = some si ∧
       (signer = v.addr ∨ (v.output ≠ [] ∧ signer = v.output)) ∧ s.params.minStake ≤ v.tokens ∧ v.jailed = true ∧
-      si.jailedUntil ≤ t ∧ si.jailedUntil ≤ now := by
-  obtain ⟨v, si, h1, h2, h3, h4, h5, h6, h7⟩ := handleUnjail_ok_requires hok
-  refine ⟨v, si, h1, h2, ?_, h4, h5, h6, h7⟩
+      si.jailedUntil ≤ t := by
+  obtain ⟨v, si, h1, h2, h3, h4, h5, h6⟩ := handleUnjail_ok_requires hok
+  refine ⟨v, si, h1, h2, ?_, h4, h5, h6⟩
   unfold signerOk at h3
   split at h3
   · left; simpa using h3
@@ -131,19 +132,32 @@ theorem unjail_requires (s : State) (h t now : Int) (a signer : Addr) (hok : (ha
     · exact Or.inl e
     · exact Or.inr ⟨ho, e⟩
 
-/-- the block-time condition alone does not suffice as coded: with the wall clock behind the jail end the
-message is rejected although the block time has passed it -/
-theorem unjail_depends_on_wall_clock :
-    ∃ (s : State) (h t a signer : _) (now₁ now₂ : Int),
-      (handleUnjail s h t now₁ a signer).2 = .ok ∧ (handleUnjail s h t now₂ a signer).2 ≠ .ok := by
-  refine ⟨{ (simpleSlash Ex.s0 Ex.B 1000000) with
-            vals := aset Ex.s0.vals Ex.B { addr := Ex.B, pk := [2, 2], jailed := true, status := .staked, chains := [],
-                                           url := [], tokens := 30000000, unstTime := zeroTime, output := Ex.B, delegators := [] },
-            signInfo := [(Ex.B, ⟨3, 0, 5000, 0, 0⟩)] }, 9, 6000, Ex.B, Ex.B, 7000, 4000, ?_, ?_⟩ <;> decide
+/-- … and these conditions suffice: the result of an unjail is a function of the store and the block time, of
+nothing else.  (Historical note: before 286039a a message meeting all of them was rejected with pos:104 whenever
+`JailedUntil` lay after the local clock of the node; the driver's `unjail-depends-on-wall-clock` monitor is this
+theorem evaluated on the implementation's answer.) -/
+theorem unjail_iff (s : State) (h t : Int) (a signer : Addr) :
+    (handleUnjail s h t a signer).2 = .ok ↔
+      ∃ v si, aget s.vals a = some v ∧ aget s.signInfo v.addr = some si ∧ signerOk v.addr v.output signer = true ∧
+        s.params.minStake ≤ v.tokens ∧ v.jailed = true ∧ si.jailedUntil ≤ t := by
+  constructor
+  · intro hok
+    obtain ⟨v, si, h1, h2, h3, h4, h5, h6⟩ := handleUnjail_ok_requires hok
+    exact ⟨v, si, h1, h2, h3, h4, h5, h6⟩
+  · rintro ⟨v, si, h1, h2, h3, h4, h5, h6⟩
+    exact handleUnjail_ok_of h1 h2 h3 h4 h5 h6
+
+/-- jailed until 5000: rejected at block time 4999, accepted at 5000 -/
+example :
+    let s : State := { Ex.s0 with
+      vals := aset Ex.s0.vals Ex.B { addr := Ex.B, pk := [2, 2], jailed := true, status := .staked, chains := [],
+                                     url := [], tokens := 30000000, unstTime := zeroTime, output := Ex.B, delegators := [] },
+      signInfo := [(Ex.B, ⟨3, 0, 5000, 0, 0⟩)] }
+    (handleUnjail s 9 4999 Ex.B Ex.B).2 = .err 104 ∧ (handleUnjail s 9 5000 Ex.B Ex.B).2 = .ok := by decide
 
 /-- A rejected unjail leaves every record as it was. -/
-theorem unjail_rejected_keeps_records (s : State) (h t now : Int) (a signer : Addr)
-    (herr : (handleUnjail s h t now a signer).2 ≠ .ok) : (handleUnjail s h t now a signer).1.vals = s.vals :=
+theorem unjail_rejected_keeps_records (s : State) (h t : Int) (a signer : Addr)
+    (herr : (handleUnjail s h t a signer).2 ≠ .ok) : (handleUnjail s h t a signer).1.vals = s.vals :=
   handleUnjail_err_vals herr
 
 /-- Downtime accounting: the counter and the bit array move together — if the counter equals the number of
